@@ -352,6 +352,49 @@ fn selftest(pals: &[Palette]) -> (u64, u64) {
     (inj, det)
 }
 
+/// One history through `ShapeWriter::from_path` over paths that already hold longer files, against the same
+/// writes followed by drop.
+pub fn disk_verdicts(pal: &Palette, ty: Ty, h: &[WOp]) -> Vec<(String, String)> {
+    let dir = super::c01_c02::scratch_dir();
+    let tid: String = format!("{:?}", std::thread::current().id()).chars().filter(|c| c.is_ascii_digit()).collect();
+    let run_on_disk = |ops: &[WOp], tag: &str| -> Result<(Vec<u8>, Vec<u8>), String> {
+        let path = dir.join(format!("c09-{}-{}.shp", tid, tag));
+        std::fs::write(&path, vec![0xEEu8; 5000]).map_err(|e| e.to_string())?;
+        std::fs::write(path.with_extension("shx"), vec![0xEEu8; 3000]).map_err(|e| e.to_string())?;
+        {
+            let mut w = shapefile::ShapeWriter::from_path(&path).map_err(|e| crate::bridge::err_kind(&e))?;
+            for op in ops {
+                match op {
+                    WOp::W(k) => crate::bridge::write_shape(&mut w, &pal.lib[*k as usize]).map_err(|e| crate::bridge::err_kind(&e))?,
+                    _ => w.finalize().map_err(|e| crate::bridge::err_kind(&e))?,
+                }
+            }
+        }
+        let r = (std::fs::read(&path).map_err(|e| e.to_string())?, std::fs::read(path.with_extension("shx")).map_err(|e| e.to_string())?);
+        let _ = std::fs::remove_file(&path);
+        let _ = std::fs::remove_file(path.with_extension("shx"));
+        Ok(r)
+    };
+    let writes: Vec<WOp> = h.iter().copied().filter(|o| matches!(o, WOp::W(_))).collect();
+    let mut out = vec![];
+    match catch(|| (run_on_disk(h, "a"), run_on_disk(&writes, "b"))) {
+        Ok((Ok(a), Ok(b))) => {
+            if a != b {
+                out.push(("disk:final-files-differ".to_string(), format!(".shp {} vs {} bytes, .shx {} vs {} bytes (history vs writes+drop)", a.0.len(), b.0.len(), a.1.len(), b.1.len())));
+            }
+            let handed: Vec<MRead> = writes.iter().map(|o| if let WOp::W(k) = o { pal.built[*k as usize].clone() } else { unreachable!() }).collect();
+            if let Some(c) = shp_holds_exactly(&a.0, ty, &handed) {
+                out.push((format!("disk:file-invalid:{}", clause_class(&c)), c));
+            } else if let Err(e) = shx_matches_shp(&a.0, &a.1) {
+                out.push((format!("disk:index-invalid:{}", clause_class(&e)), e));
+            }
+        }
+        Ok((a, b)) => out.push(("disk:call-failed".to_string(), format!("{:?} / {:?}", a.err(), b.err()))),
+        Err(p) => out.push((format!("disk:{}", p.sig()), p.msg)),
+    }
+    out
+}
+
 pub fn check(tier: Tier) -> i32 {
     let started = Instant::now();
     let depth = tier.pick(7, 10);
@@ -402,47 +445,15 @@ pub fn check(tier: Tier) -> i32 {
             hs.extend(next.iter().cloned());
             cur = next;
         }
-        let run_on_disk = |ops: &[WOp], tag: &str| -> Result<(Vec<u8>, Vec<u8>), String> {
-            let path = dir.join(format!("c09-{}.shp", tag));
-            std::fs::write(&path, vec![0xEEu8; 5000]).map_err(|e| e.to_string())?;
-            std::fs::write(path.with_extension("shx"), vec![0xEEu8; 3000]).map_err(|e| e.to_string())?;
-            {
-                let mut w = shapefile::ShapeWriter::from_path(&path).map_err(|e| crate::bridge::err_kind(&e))?;
-                for op in ops {
-                    match op {
-                        WOp::W(k) => crate::bridge::write_shape(&mut w, &pal.lib[*k as usize]).map_err(|e| crate::bridge::err_kind(&e))?,
-                        _ => w.finalize().map_err(|e| crate::bridge::err_kind(&e))?,
-                    }
-                }
-            }
-            let r = (std::fs::read(&path).map_err(|e| e.to_string())?, std::fs::read(path.with_extension("shx")).map_err(|e| e.to_string())?);
-            let _ = std::fs::remove_file(&path);
-            let _ = std::fs::remove_file(path.with_extension("shx"));
-            Ok(r)
-        };
         for h in &hs {
-            let writes: Vec<WOp> = h.iter().copied().filter(|o| matches!(o, WOp::W(_))).collect();
             let cj = json!({"ty": ty.name(), "route": "from_path over existing longer files", "ops": ops_name(h)});
             let mut hh = Fnv::new();
             hh.str(&cj.to_string());
-            let got = catch(|| (run_on_disk(h, "a"), run_on_disk(&writes, "b")));
             disk.lib_calls += h.len() as u64 * 2 + 4;
             disk.traces += 1;
             disk.case_done(hh.finish(), h.contains(&WOp::F), 3);
-            match got {
-                Ok((Ok(a), Ok(b))) => {
-                    if a != b {
-                        disk.violation("disk:final-files-differ", || cj.clone(), || format!(".shp {} vs {} bytes, .shx {} vs {} bytes (history vs writes+drop)", a.0.len(), b.0.len(), a.1.len(), b.1.len()));
-                    }
-                    let handed: Vec<MRead> = writes.iter().map(|o| if let WOp::W(k) = o { pal.built[*k as usize].clone() } else { unreachable!() }).collect();
-                    if let Some(c) = shp_holds_exactly(&a.0, *ty, &handed) {
-                        disk.violation(format!("disk:file-invalid:{}", clause_class(&c)), || cj.clone(), || c);
-                    } else if let Err(e) = shx_matches_shp(&a.0, &a.1) {
-                        disk.violation(format!("disk:index-invalid:{}", clause_class(&e)), || cj.clone(), || e);
-                    }
-                }
-                Ok((a, b)) => disk.violation("disk:call-failed", || cj.clone(), || format!("{:?} / {:?}", a.err(), b.err())),
-                Err(p) => disk.violation(format!("disk:{}", p.sig()), || cj.clone(), || p.msg.clone()),
+            for (sig, d) in disk_verdicts(pal, *ty, h) {
+                disk.violation(sig, || cj.clone(), || d);
             }
         }
     }
@@ -480,6 +491,17 @@ pub fn check(tier: Tier) -> i32 {
 }
 
 pub fn replay(v: &Value) -> Vec<(String, String)> {
+    if v.get("route").is_some() {
+        let parsed = (|| Some((Ty::from_name(v.get("ty")?.as_str()?)?, ops_from_name(v.get("ops")?.as_str()?)?)))();
+        return match parsed {
+            Some((ty, ops)) => {
+                let r = disk_verdicts(&Palette::new(ty, Some(other_of(ty))), ty, &ops);
+                super::c01_c02::cleanup_scratch();
+                r
+            }
+            None => vec![("bad-replay-file".into(), "cannot parse case".into())],
+        };
+    }
     let case = match Case::from_json(v) {
         Some(c) => c,
         None => return vec![("bad-replay-file".into(), "cannot parse case".into())],
